@@ -9,7 +9,16 @@ from rtverif.props.c02 import past_cfg
 from rtverif.props.c03 import bf_cfg
 
 U = {'s': 10 ** 9, 'ms': 10 ** 6, 'us': 10 ** 3, 'ns': 1}
-PERIODS = [(1, 's'), (500, 'ms'), (2, 's'), (250000, 'us'), (1, 'ms')]
+PERIODS = [(1, 's'), (500, 'ms'), (2, 's'), (250000, 'us'), (1, 'ms'), (1, 's'), (500, 'ms'), (2, 's'),
+           # the same periods written with large numerals in a finer unit, periods that are not a whole number of
+           # any coarser unit, float periods
+           (1000, 'ms'), (1000000, 'us'), (10 ** 9, 'ns'), (500000, 'us'), (5 * 10 ** 8, 'ns'), (1500, 'ms'),
+           (1500000, 'us'), (1500000000, 'ns'), (2500, 'us'), (2500000, 'ns'), (0.5, 's'), (1.5, 's'), (3, 's'),
+           (7, 'ms'), (60, 's'), (1001, 'ms')]
+
+
+def period_ns(period):
+    return int(Fr(str(period[0])) * U[period[1]])
 
 
 def dur_in(d_ns, unit):
@@ -134,7 +143,7 @@ class C08(Prop):
     def gen_nonmultiple(self, rng):
         op = rng.choice(['once', 'historically', 'eventually', 'always', 'since', 'until'])
         period = rng.choice(PERIODS)
-        P = period[0] * U[period[1]]
+        P = period_ns(period)
         ka, kb = sorted([rng.randint(0, 4), rng.randint(0, 4)])
         off = rng.choice([Fr(1, 2), Fr(1, 4), Fr(1, 5), Fr(3, 4)])
         which = rng.choice(['begin', 'end', 'both'])
@@ -222,7 +231,7 @@ class C08(Prop):
         names = sorted(data)
         n = len(data[names[0]])
         period, unit, mode = tuple(case['period']), case['unit'], case['mode']
-        P = period[0] * U[period[1]]
+        P = period_ns(period)
         try:
             exp = refd.evaluate(f, data, n)
         except refd.Undefined:
